@@ -11,11 +11,16 @@
     * `SchemaRef.Value` is nil when the loader could not (or, for cyclic alias `$ref`s, did not)
       resolve the reference;
     * `SchemaRef.Ref` is "a reference" iff it is non-empty and contains `#` (`isRef`).
-  Every Go operation that can panic is an explicit `Outcome.panic`:
-      "walkEnum: Type.Slice()[0]"           enum without (or with empty) type
-      "walkSchemaRef: nil SchemaRef"        `type: array` without `items`
-      "walkDefinitions: nil Schema"         a SchemaRef whose Value is nil and whose Ref is not a `#` ref
-      "schemaComments: nil Schema"          a component / property whose Value is nil
+  Every Go operation that can panic is an explicit `Outcome.panic`.  The model has two versions,
+  selected by `fx : Bool`: `fx = false` is the generator BEFORE the /repo fixes 70c59a6, 4e6f2a6,
+  ca4fdd6 (kept so that the former defects stay checked statements), `fx = true` the current one, in
+  which the first four sites below are `err` returns:
+      "walkEnum: Type.Slice()[0]"           enum without (or with empty) type          (fixed 70c59a6)
+      "walkSchemaRef: nil SchemaRef"        `type: array` without `items`              (fixed 4e6f2a6)
+      "walkDefinitions: nil Schema"         a SchemaRef whose Value is nil, Ref not `#` (fixed ca4fdd6)
+      "schemaComments: nil Schema"          a component / property whose Value is nil   (fixed ca4fdd6)
+      "walkSchemaRef: nil SchemaRef"        a nil `*SchemaRef` as a LIST ELEMENT or map value: still a nil
+                                            dereference, but the loader rejects such documents
       "getConstraints: Type.Slice()[0]"     (proved unreachable: only called under `Type.Is(…)`)
   The recursion is structural on the library value (the generator never follows `Ref`: `walkRef`
   only names the target), so termination is Lean's own check; cyclic pointer graphs built by the
@@ -113,24 +118,27 @@ def valuePresent : ORef → Bool
   | .resolved .. => true
   | _ => false
 
+/-- a site that panicked before its fix and returns an error since -/
+def site {α : Type} (fx : Bool) (what : String) : Outcome α := if fx then .err what else .panic what
+
 mutual
 /-- `walkSchemaRef` -/
-def walkRef : ORef → Outcome Ty
+def walkRef (fx : Bool) : ORef → Outcome Ty
   | .nilPtr => .panic "walkSchemaRef: nil SchemaRef"
-  | .unresolved ref => if isRef ref then .ok (.ref "pkg" ref {}) else .panic "walkDefinitions: nil Schema"
-  | .resolved ref s => if isRef ref then .ok (.ref "pkg" ref {}) else walkDefinitions s
+  | .unresolved ref => if isRef ref then .ok (.ref "pkg" ref {}) else site fx "walkDefinitions: nil Schema"
+  | .resolved ref s => if isRef ref then .ok (.ref "pkg" ref {}) else walkDefinitions fx s
 /-- `walkDefinitions` -/
-def walkDefinitions : OSchema → Outcome Ty
+def walkDefinitions (fx : Bool) : OSchema → Outcome Ty
   | .mk a allOf anyOf oneOf props addl items =>
-    if a.hasAllOf then bind3 (walkList allOf) fun ts => .ok (.inter ts {})
-    else if a.hasAnyOf then bind3 (walkList anyOf) fun ts => .ok (.disj ts (discr a) {})
-    else if a.hasOneOf then bind3 (walkList oneOf) fun ts => .ok (.disj ts (discr a) {})
+    if a.hasAllOf then bind3 (walkList fx allOf) fun ts => .ok (.inter ts {})
+    else if a.hasAnyOf then bind3 (walkList fx anyOf) fun ts => .ok (.disj ts (discr a) {})
+    else if a.hasOneOf then bind3 (walkList fx oneOf) fun ts => .ok (.disj ts (discr a) {})
     else
     match a.enum with
     | some vals =>
       -- walkEnum
       match typeHead a with
-      | none => .panic "walkEnum: Type.Slice()[0]"
+      | none => site fx "walkEnum: Type.Slice()[0]"
       | some t =>
         match enumKind t with
         | none => .err "only strings/numbers are supported"
@@ -141,73 +149,81 @@ def walkDefinitions : OSchema → Outcome Ty
         -- walkObject
         if props.isEmpty then
           (if isNilPtr addl then .ok (.scalar "any" .nil [] {})
-           else bind3 (walkRef addl) fun vt => .ok (.map (.scalar "string" .nil [] {}) vt {}))
-        else bind3 (walkProps a.required props) fun fs => .ok (.struct fs [] none {})
-      else if typeIs a "array" then bind3 (walkRef items) fun et => .ok (.array et {})
+           else bind3 (walkRef fx addl) fun vt => .ok (.map (.scalar "string" .nil [] {}) vt {}))
+        else bind3 (walkProps fx a.required props) fun fs => .ok (.struct fs [] none {})
+      else if typeIs a "array" then
+        -- walkArray: since 4e6f2a6 a nil `Items` is an error before `walkSchemaRef` is reached
+        (if fx && isNilPtr items then .err "array without items"
+         else bind3 (walkRef fx items) fun et => .ok (.array et {}))
       else if typeIs a "boolean" then .ok (.scalar "bool" .nil [] {})
       else if typeIs a "integer" then scalarOf (if a.format == "int32" then "int32" else "int64") a
       else if typeIs a "number" then scalarOf (if a.format == "double" then "float64" else "float32") a
       else .ok (.scalar "any" .nil [] {})
-def walkList : List ORef → Outcome (List Ty)
+def walkList (fx : Bool) : List ORef → Outcome (List Ty)
   | [] => .ok []
-  | r :: rs => bind3 (walkRef r) fun t => bind3 (walkList rs) fun ts => .ok (t :: ts)
+  | r :: rs => bind3 (walkRef fx r) fun t => bind3 (walkList fx rs) fun ts => .ok (t :: ts)
 /-- the property loop of `walkObject`: `schemaComments(schemaRef.Value)` dereferences `Value` -/
-def walkProps (required : List String) : List (String × ORef) → Outcome (List Field)
+def walkProps (fx : Bool) (required : List String) : List (String × ORef) → Outcome (List Field)
   | [] => .ok []
   | (name, r) :: rest =>
-    bind3 (walkRef r) fun t =>
-      if !valuePresent r then .panic "schemaComments: nil Schema"
-      else bind3 (walkProps required rest) fun fs =>
+    bind3 (walkRef fx r) fun t =>
+      if !fx && !valuePresent r then .panic "schemaComments: nil Schema"
+      else bind3 (walkProps fx required rest) fun fs =>
         .ok ({ name := name, ty := t, required := required.contains name } :: fs)
 end
 
 /-- `declareDefinition` over `oapi.Components.Schemas` (a Go map: the order is immaterial here) -/
-def declare (pkg : String) : List (String × ORef) → Outcome (List (String × Obj))
+def declare (fx : Bool) (pkg : String) : List (String × ORef) → Outcome (List (String × Obj))
   | [] => .ok []
   | (name, r) :: rest =>
-    bind3 (walkRef r) fun t =>
-      if !valuePresent r then .panic "schemaComments: nil Schema"
-      else bind3 (declare pkg rest) fun os =>
+    bind3 (walkRef fx r) fun t =>
+      if !fx && !valuePresent r then .panic "schemaComments: nil Schema"
+      else bind3 (declare fx pkg rest) fun os =>
         .ok ((name, { name := name, ty := t, selfPkg := pkg, selfName := name }) :: os)
 
 /-- `GenerateAST` after validation (or with validation off): `none` = no `components` -/
-def generateAST (pkg : String) (components : Option (List (String × ORef))) : Outcome Schema :=
+def generateASTv (fx : Bool) (pkg : String) (components : Option (List (String × ORef))) : Outcome Schema :=
   match components with
   | none => .ok { pkg := pkg }
-  | some cs => bind3 (declare pkg cs) fun os => .ok { pkg := pkg, objects := os }
+  | some cs => bind3 (declare fx pkg cs) fun os => .ok { pkg := pkg, objects := os }
+
+/-- the generator as it is now -/
+def generateAST := generateASTv true
+/-- the generator before fixes 70c59a6 / 4e6f2a6 / ca4fdd6 -/
+def generateASTPreFix := generateASTv false
 
 /-! ### what the library value must satisfy for the generator not to panic -/
 
 mutual
-def okRef : ORef → Bool
+def okRef (fx : Bool) : ORef → Bool
   | .nilPtr => false
-  | .unresolved ref => isRef ref
-  | .resolved ref s => isRef ref || okSchema s
-def okSchema : OSchema → Bool
+  | .unresolved ref => fx || isRef ref
+  | .resolved ref s => isRef ref || okSchema fx s
+def okSchema (fx : Bool) : OSchema → Bool
   | .mk a allOf anyOf oneOf props addl items =>
-    if a.hasAllOf then okList allOf
-    else if a.hasAnyOf then okList anyOf
-    else if a.hasOneOf then okList oneOf
+    if a.hasAllOf then okList fx allOf
+    else if a.hasAnyOf then okList fx anyOf
+    else if a.hasOneOf then okList fx oneOf
     else
     match a.enum with
-    | some _ => (typeHead a).isSome
+    | some _ => fx || (typeHead a).isSome
     | none =>
       if typeIs a "string" then true
       else if typeIs a "object" then
-        (if props.isEmpty then (isNilPtr addl || okRef addl) else okProps props)
-      else if typeIs a "array" then okRef items
+        (if props.isEmpty then (isNilPtr addl || okRef fx addl) else okProps fx props)
+      else if typeIs a "array" then (fx && isNilPtr items) || okRef fx items
       else true
-def okList : List ORef → Bool
+def okList (fx : Bool) : List ORef → Bool
   | [] => true
-  | r :: rs => okRef r && okList rs
-def okProps : List (String × ORef) → Bool
+  | r :: rs => okRef fx r && okList fx rs
+def okProps (fx : Bool) : List (String × ORef) → Bool
   | [] => true
-  | (_, r) :: rest => okRef r && valuePresent r && okProps rest
+  | (_, r) :: rest => okRef fx r && (fx || valuePresent r) && okProps fx rest
 end
 
-def okComponents : List (String × ORef) → Bool
+def okComponents (fx : Bool) : List (String × ORef) → Bool
   | [] => true
-  | (_, r) :: rest => okRef r && valuePresent r && okComponents rest
+  | (_, r) :: rest => okRef fx r && (fx || valuePresent r) && okComponents fx rest
 
 theorem bind3_noPanic {α β : Type} (x : Outcome α) (f : α → Outcome β) (hx : isPanic x = false)
     (hf : ∀ a, x = .ok a → isPanic (f a) = false) : isPanic (bind3 x f) = false := by
@@ -226,40 +242,51 @@ theorem scalarOf_noPanic (kind : String) (a : OAttrs) (t : String) (h : typeIs a
   have hc : getConstraints a = .ok [] := by simp [getConstraints, typeIs_head h]
   simp [scalarOf, hc]
 
+theorem site_noPanic {α : Type} (what : String) : isPanic (site true what : Outcome α) = false := rfl
+
 mutual
-theorem walkRef_noPanic : ∀ r : ORef, okRef r = true → isPanic (walkRef r) = false
+theorem walkRef_noPanic (fx : Bool) : ∀ r : ORef, okRef fx r = true → isPanic (walkRef fx r) = false
   | .nilPtr => fun h => by simp [okRef] at h
   | .unresolved ref => fun h => by
-    simp only [okRef] at h
-    simp [walkRef, h]
+    simp only [okRef, Bool.or_eq_true] at h
+    simp only [walkRef]
+    by_cases hr : isRef ref = true
+    · simp [hr]
+    · simp only [hr, Bool.false_eq_true, if_false]
+      rcases h with h | h
+      · subst h; rfl
+      · exact absurd h hr
   | .resolved ref s => fun h => by
     simp only [walkRef]
     by_cases hr : isRef ref = true
     · simp [hr]
     · simp only [hr, Bool.false_eq_true, if_false]
       simp only [okRef, hr, Bool.false_or] at h
-      exact walkDefinitions_noPanic s h
-theorem walkDefinitions_noPanic : ∀ s : OSchema, okSchema s = true → isPanic (walkDefinitions s) = false
+      exact walkDefinitions_noPanic fx s h
+theorem walkDefinitions_noPanic (fx : Bool) : ∀ s : OSchema, okSchema fx s = true → isPanic (walkDefinitions fx s) = false
   | .mk a allOf anyOf oneOf props addl items => fun h => by
     simp only [walkDefinitions]
     simp only [okSchema] at h
     by_cases ha1 : a.hasAllOf = true
     · simp only [ha1, if_true] at h ⊢
-      exact bind3_noPanic _ _ (walkList_noPanic allOf h) (fun _ _ => rfl)
+      exact bind3_noPanic _ _ (walkList_noPanic fx allOf h) (fun _ _ => rfl)
     simp only [ha1, Bool.false_eq_true, if_false] at h ⊢
     by_cases ha2 : a.hasAnyOf = true
     · simp only [ha2, if_true] at h ⊢
-      exact bind3_noPanic _ _ (walkList_noPanic anyOf h) (fun _ _ => rfl)
+      exact bind3_noPanic _ _ (walkList_noPanic fx anyOf h) (fun _ _ => rfl)
     simp only [ha2, Bool.false_eq_true, if_false] at h ⊢
     by_cases ha3 : a.hasOneOf = true
     · simp only [ha3, if_true] at h ⊢
-      exact bind3_noPanic _ _ (walkList_noPanic oneOf h) (fun _ _ => rfl)
+      exact bind3_noPanic _ _ (walkList_noPanic fx oneOf h) (fun _ _ => rfl)
     simp only [ha3, Bool.false_eq_true, if_false] at h ⊢
     cases he : a.enum with
     | some vals =>
-      simp only [he] at h ⊢
+      simp only [he, Bool.or_eq_true] at h ⊢
       cases hth : typeHead a with
-      | none => simp [hth] at h
+      | none =>
+        rcases h with h | h
+        · subst h; rfl
+        · simp [hth] at h
       | some t => simp only []; split <;> rfl
     | none =>
       simp only [he] at h ⊢
@@ -273,13 +300,18 @@ theorem walkDefinitions_noPanic : ∀ s : OSchema, okSchema s = true → isPanic
             by_cases hn : isNilPtr addl = true
             · simp [hn]
             · simp only [hn, Bool.false_eq_true, if_false, Bool.false_or] at h ⊢
-              exact bind3_noPanic _ _ (walkRef_noPanic addl h) (fun _ _ => rfl)
+              exact bind3_noPanic _ _ (walkRef_noPanic fx addl h) (fun _ _ => rfl)
           · simp only [hp, Bool.false_eq_true, if_false] at h ⊢
-            exact bind3_noPanic _ _ (walkProps_noPanic a.required props h) (fun _ _ => rfl)
+            exact bind3_noPanic _ _ (walkProps_noPanic fx a.required props h) (fun _ _ => rfl)
         · simp only [h2, Bool.false_eq_true, if_false] at h ⊢
           by_cases h3 : typeIs a "array" = true
-          · simp only [h3, if_true] at h ⊢
-            exact bind3_noPanic _ _ (walkRef_noPanic items h) (fun _ _ => rfl)
+          · simp only [h3, if_true, Bool.or_eq_true] at h ⊢
+            by_cases hg : (fx && isNilPtr items) = true
+            · simp [hg]
+            · simp only [hg, Bool.false_eq_true, if_false]
+              rcases h with h | h
+              · exact absurd h hg
+              · exact bind3_noPanic _ _ (walkRef_noPanic fx items h) (fun _ _ => rfl)
           · simp only [h3, Bool.false_eq_true, if_false]
             by_cases h4 : typeIs a "boolean" = true
             · simp [h4]
@@ -290,42 +322,46 @@ theorem walkDefinitions_noPanic : ∀ s : OSchema, okSchema s = true → isPanic
                 by_cases h6 : typeIs a "number" = true
                 · simp only [h6, if_true]; exact scalarOf_noPanic _ a _ h6
                 · simp [h6]
-theorem walkList_noPanic : ∀ rs : List ORef, okList rs = true → isPanic (walkList rs) = false
+theorem walkList_noPanic (fx : Bool) : ∀ rs : List ORef, okList fx rs = true → isPanic (walkList fx rs) = false
   | [] => fun _ => rfl
   | r :: rs => fun h => by
     simp only [okList, Bool.and_eq_true] at h
     simp only [walkList]
-    exact bind3_noPanic _ _ (walkRef_noPanic r h.1)
-      (fun _ _ => bind3_noPanic _ _ (walkList_noPanic rs h.2) (fun _ _ => rfl))
-theorem walkProps_noPanic (required : List String) : ∀ ps : List (String × ORef), okProps ps = true →
-    isPanic (walkProps required ps) = false
+    exact bind3_noPanic _ _ (walkRef_noPanic fx r h.1)
+      (fun _ _ => bind3_noPanic _ _ (walkList_noPanic fx rs h.2) (fun _ _ => rfl))
+theorem walkProps_noPanic (fx : Bool) (required : List String) : ∀ ps : List (String × ORef), okProps fx ps = true →
+    isPanic (walkProps fx required ps) = false
   | [] => fun _ => rfl
   | (name, r) :: rest => fun h => by
-    simp only [okProps, Bool.and_eq_true] at h
+    simp only [okProps, Bool.and_eq_true, Bool.or_eq_true] at h
     simp only [walkProps]
-    apply bind3_noPanic _ _ (walkRef_noPanic r h.1.1)
+    apply bind3_noPanic _ _ (walkRef_noPanic fx r h.1.1)
     intro t _
-    simp only [h.1.2, Bool.not_true, Bool.false_eq_true, if_false]
-    exact bind3_noPanic _ _ (walkProps_noPanic required rest h.2) (fun _ _ => rfl)
+    have hg : (!fx && !valuePresent r) = false := by
+      rcases h.1.2 with h2 | h2 <;> simp [h2]
+    simp only [hg, Bool.false_eq_true, if_false]
+    exact bind3_noPanic _ _ (walkProps_noPanic fx required rest h.2) (fun _ _ => rfl)
 end
 
-theorem declare_noPanic (pkg : String) : ∀ cs : List (String × ORef), okComponents cs = true →
-    isPanic (declare pkg cs) = false
+theorem declare_noPanic (fx : Bool) (pkg : String) : ∀ cs : List (String × ORef), okComponents fx cs = true →
+    isPanic (declare fx pkg cs) = false
   | [], _ => rfl
   | (name, r) :: rest, h => by
-    simp only [okComponents, Bool.and_eq_true] at h
+    simp only [okComponents, Bool.and_eq_true, Bool.or_eq_true] at h
     simp only [declare]
-    apply bind3_noPanic _ _ (walkRef_noPanic r h.1.1)
+    apply bind3_noPanic _ _ (walkRef_noPanic fx r h.1.1)
     intro t _
-    simp only [h.1.2, Bool.not_true, Bool.false_eq_true, if_false]
-    exact bind3_noPanic _ _ (declare_noPanic pkg rest h.2) (fun _ _ => rfl)
+    have hg : (!fx && !valuePresent r) = false := by
+      rcases h.1.2 with h2 | h2 <;> simp [h2]
+    simp only [hg, Bool.false_eq_true, if_false]
+    exact bind3_noPanic _ _ (declare_noPanic fx pkg rest h.2) (fun _ _ => rfl)
 
 /-- the OpenAPI generator does not panic on library values satisfying `okComponents` -/
-theorem generateAST_noPanic (pkg : String) (cs : Option (List (String × ORef)))
-    (h : ∀ l, cs = some l → okComponents l = true) : isPanic (generateAST pkg cs) = false := by
+theorem generateASTv_noPanic (fx : Bool) (pkg : String) (cs : Option (List (String × ORef)))
+    (h : ∀ l, cs = some l → okComponents fx l = true) : isPanic (generateASTv fx pkg cs) = false := by
   cases cs with
   | none => rfl
-  | some l => exact bind3_noPanic _ _ (declare_noPanic pkg l (h l rfl)) (fun _ _ => rfl)
+  | some l => exact bind3_noPanic _ _ (declare_noPanic fx pkg l (h l rfl)) (fun _ _ => rfl)
 
 /-! ### what the generator guarantees about its output (`parse_wf`) -/
 
@@ -362,44 +398,44 @@ theorem tyWf_iff (t : Ty) : tyWf t = true ↔ Cog.NF.noBadTy t = true ∧ allTy 
   simp [tyWf]
 
 mutual
-theorem walkRef_wf : ∀ (r : ORef) (t : Ty), walkRef r = .ok t → tyWf t = true
+theorem walkRef_wf (fx : Bool) : ∀ (r : ORef) (t : Ty), walkRef fx r = .ok t → tyWf t = true
   | .nilPtr => fun t h => by simp [walkRef] at h
   | .unresolved ref => fun t h => by
     simp only [walkRef] at h
     split at h
     · cases h; simp [tyWf, Cog.NF.noBadTy, allTy, enumMembersScalarNode]
-    · cases h
+    · cases fx <;> simp [site] at h
   | .resolved ref s => fun t h => by
     simp only [walkRef] at h
     split at h
     · cases h; simp [tyWf, Cog.NF.noBadTy, allTy, enumMembersScalarNode]
-    · exact walkDefinitions_wf s t h
-theorem walkDefinitions_wf : ∀ (s : OSchema) (t : Ty), walkDefinitions s = .ok t → tyWf t = true
+    · exact walkDefinitions_wf fx s t h
+theorem walkDefinitions_wf (fx : Bool) : ∀ (s : OSchema) (t : Ty), walkDefinitions fx s = .ok t → tyWf t = true
   | .mk a allOf anyOf oneOf props addl items => fun t h => by
     simp only [walkDefinitions] at h
     split at h
     · obtain ⟨ts, h1, h2⟩ := bind3_ok h
       cases h2
-      have := walkList_wf allOf ts h1
+      have := walkList_wf fx allOf ts h1
       simp only [listWf, Bool.and_eq_true] at this
       simp [tyWf, Cog.NF.noBadTy, allTy, enumMembersScalarNode, this.1, this.2]
     · split at h
       · obtain ⟨ts, h1, h2⟩ := bind3_ok h
         cases h2
-        have := walkList_wf anyOf ts h1
+        have := walkList_wf fx anyOf ts h1
         simp only [listWf, Bool.and_eq_true] at this
         simp [tyWf, Cog.NF.noBadTy, allTy, enumMembersScalarNode, this.1, this.2]
       · split at h
         · obtain ⟨ts, h1, h2⟩ := bind3_ok h
           cases h2
-          have := walkList_wf oneOf ts h1
+          have := walkList_wf fx oneOf ts h1
           simp only [listWf, Bool.and_eq_true] at this
           simp [tyWf, Cog.NF.noBadTy, allTy, enumMembersScalarNode, this.1, this.2]
         · cases he : a.enum with
           | some vals =>
             simp only [he] at h
             cases hth : typeHead a with
-            | none => simp [hth] at h
+            | none => cases fx <;> simp [hth, site] at h
             | some tn =>
               simp only [hth] at h
               cases hek : enumKind tn with
@@ -419,18 +455,20 @@ theorem walkDefinitions_wf : ∀ (s : OSchema) (t : Ty), walkDefinitions s = .ok
                   · cases h; simp [tyWf, Cog.NF.noBadTy, allTy, enumMembersScalarNode]
                   · obtain ⟨vt, h1, h2⟩ := bind3_ok h
                     cases h2
-                    have := (tyWf_iff vt).1 (walkRef_wf addl vt h1)
+                    have := (tyWf_iff vt).1 (walkRef_wf fx addl vt h1)
                     simp [tyWf, Cog.NF.noBadTy, allTy, enumMembersScalarNode, this.1, this.2]
                 · obtain ⟨fs, h1, h2⟩ := bind3_ok h
                   cases h2
-                  have := walkProps_wf a.required props fs h1
+                  have := walkProps_wf fx a.required props fs h1
                   simp only [fieldsWf, Bool.and_eq_true] at this
                   simp [tyWf, Cog.NF.noBadTy, Cog.NF.noBadList, allTy, allList, enumMembersScalarNode, this.1, this.2]
               · split at h
-                · obtain ⟨et, h1, h2⟩ := bind3_ok h
-                  cases h2
-                  have := (tyWf_iff et).1 (walkRef_wf items et h1)
-                  simp [tyWf, Cog.NF.noBadTy, allTy, enumMembersScalarNode, this.1, this.2]
+                · split at h
+                  · cases h
+                  · obtain ⟨et, h1, h2⟩ := bind3_ok h
+                    cases h2
+                    have := (tyWf_iff et).1 (walkRef_wf fx items et h1)
+                    simp [tyWf, Cog.NF.noBadTy, allTy, enumMembersScalarNode, this.1, this.2]
                 · split at h
                   · cases h; simp [tyWf, Cog.NF.noBadTy, allTy, enumMembersScalarNode]
                   · split at h
@@ -438,19 +476,19 @@ theorem walkDefinitions_wf : ∀ (s : OSchema) (t : Ty), walkDefinitions s = .ok
                     · split at h
                       · exact scalarOf_wf h
                       · cases h; simp [tyWf, Cog.NF.noBadTy, allTy, enumMembersScalarNode]
-theorem walkList_wf : ∀ (rs : List ORef) (ts : List Ty), walkList rs = .ok ts → listWf ts = true
+theorem walkList_wf (fx : Bool) : ∀ (rs : List ORef) (ts : List Ty), walkList fx rs = .ok ts → listWf ts = true
   | [] => fun ts h => by simp only [walkList] at h; cases h; simp [listWf, Cog.NF.noBadList, allList]
   | r :: rs => fun ts h => by
     simp only [walkList] at h
     obtain ⟨t, h1, h2⟩ := bind3_ok h
     obtain ⟨ts', h3, h4⟩ := bind3_ok h2
     cases h4
-    have ht := (tyWf_iff t).1 (walkRef_wf r t h1)
-    have hts := walkList_wf rs ts' h3
+    have ht := (tyWf_iff t).1 (walkRef_wf fx r t h1)
+    have hts := walkList_wf fx rs ts' h3
     simp only [listWf, Bool.and_eq_true] at hts
     simp [listWf, Cog.NF.noBadList, allList, ht.1, ht.2, hts.1, hts.2]
-theorem walkProps_wf (required : List String) : ∀ (ps : List (String × ORef)) (fs : List Field),
-    walkProps required ps = .ok fs → fieldsWf fs = true
+theorem walkProps_wf (fx : Bool) (required : List String) : ∀ (ps : List (String × ORef)) (fs : List Field),
+    walkProps fx required ps = .ok fs → fieldsWf fs = true
   | [] => fun fs h => by simp only [walkProps] at h; cases h; simp [fieldsWf, Cog.NF.noBadFields, allFields]
   | (name, r) :: rest => fun fs h => by
     simp only [walkProps] at h
@@ -459,15 +497,15 @@ theorem walkProps_wf (required : List String) : ∀ (ps : List (String × ORef))
     · cases h2
     · obtain ⟨fs', h3, h4⟩ := bind3_ok h2
       cases h4
-      have ht := (tyWf_iff t).1 (walkRef_wf r t h1)
-      have hfs := walkProps_wf required rest fs' h3
+      have ht := (tyWf_iff t).1 (walkRef_wf fx r t h1)
+      have hfs := walkProps_wf fx required rest fs' h3
       simp only [fieldsWf, Bool.and_eq_true] at hfs
       simp [fieldsWf, Cog.NF.noBadFields, allFields, ht.1, ht.2, hfs.1, hfs.2]
 end
 
 /-- objects of the generated schema: keyed by their name, types well-formed -/
-theorem declare_wf (pkg : String) : ∀ (cs : List (String × ORef)) (os : List (String × Obj)),
-    declare pkg cs = .ok os → Cog.NF.objectsWf os = true ∧ (os.all fun ko => allTy enumMembersScalarNode ko.2.ty) = true
+theorem declare_wf (fx : Bool) (pkg : String) : ∀ (cs : List (String × ORef)) (os : List (String × Obj)),
+    declare fx pkg cs = .ok os → Cog.NF.objectsWf os = true ∧ (os.all fun ko => allTy enumMembersScalarNode ko.2.ty) = true
   | [], os, h => by simp only [declare] at h; cases h; simp [Cog.NF.objectsWf]
   | (name, r) :: rest, os, h => by
     simp only [declare] at h
@@ -476,23 +514,23 @@ theorem declare_wf (pkg : String) : ∀ (cs : List (String × ORef)) (os : List 
     · cases h2
     · obtain ⟨os', h3, h4⟩ := bind3_ok h2
       cases h4
-      have ht := (tyWf_iff t).1 (walkRef_wf r t h1)
-      have hos := declare_wf pkg rest os' h3
+      have ht := (tyWf_iff t).1 (walkRef_wf fx r t h1)
+      have hos := declare_wf fx pkg rest os' h3
       simp [Cog.NF.objectsWf, ht.1, ht.2, hos.1, hos.2]
 
 /-- **parse_wf (OpenAPI)**: whatever the generator returns is `wfIR` -/
-theorem generateAST_wf (pkg : String) (cs : Option (List (String × ORef))) (s : Schema)
-    (h : generateAST pkg cs = .ok s) : wfIR [s] = true := by
+theorem generateASTv_wf (fx : Bool) (pkg : String) (cs : Option (List (String × ORef))) (s : Schema)
+    (h : generateASTv fx pkg cs = .ok s) : wfIR [s] = true := by
   cases cs with
   | none =>
-    simp only [generateAST] at h
+    simp only [generateASTv] at h
     cases h
     simp [wfIR, Cog.NF.wfIR, Cog.NF.eptOk, Cog.NF.objectsWf, allSchemas, allTy, enumMembersScalarNode]
   | some l =>
-    simp only [generateAST] at h
+    simp only [generateASTv] at h
     obtain ⟨os, h1, h2⟩ := bind3_ok h
     cases h2
-    have := declare_wf pkg l os h1
+    have := declare_wf fx pkg l os h1
     simp [wfIR, Cog.NF.wfIR, Cog.NF.eptOk, allSchemas, allTy, enumMembersScalarNode, this.1, this.2]
 
 end Cog.Total.OpenApi
